@@ -12,7 +12,7 @@ def ColOK (n : Bytes) : Prop :=
 
 /-- string cells: one line, not spelling a number (the file format cannot tell such a string from the
     number), not starting with the first byte of a byte-order mark -/
-def StrOK (s : Bytes) : Prop := 10 ∉ s ∧ 13 ∉ s ∧ isNumber 46 s = false ∧ s.head? ≠ some 0xEF
+def StrOK (s : Bytes) : Prop := 10 ∉ s ∧ 13 ∉ s ∧ isNumber 46 s = false ∧ s.head? ≠ some 0xEF ∧ 0 ∉ s
 
 def NumText (l : Bytes) : Prop := ∃ n : Num, n.WF ∧ l = n.text
 
@@ -78,7 +78,7 @@ theorem numText_bytes (n : Num) (h : n.WF) : ∀ c ∈ n.text, numByte c := by
         · exact allNum_append (a := [e]) h1 (allNum_append (allNum_one 43 h43) (allNum_digits hed))
         · exact allNum_append (a := [e]) h1 (allNum_append (allNum_one 45 h45) (allNum_digits hed))
 
-theorem numByte_ne (c : UInt8) (h : numByte c) : c ≠ 10 ∧ c ≠ 13 ∧ c ≠ 34 ∧ c ≠ 44 ∧ c ≠ 0xEF := by
+theorem numByte_ne (c : UInt8) (h : numByte c) : c ≠ 10 ∧ c ≠ 13 ∧ c ≠ 34 ∧ c ≠ 44 ∧ c ≠ 0xEF ∧ c ≠ 0 := by
   unfold numByte at h
   simp only [UInt8.le_iff_toNat_le, ne_eq, ← UInt8.toNat_inj] at h ⊢
   simp at h ⊢
@@ -116,11 +116,14 @@ theorem clean_doubleQuotes (s : Bytes) (h : Clean s) : Clean (doubleQuotes 34 s)
 
 theorem cellWF_ok (c : Cell) (h : CellWF c) : CellOK 44 c := by
   cases c with
-  | str s => trivial
+  | str s => exact ⟨h.2.2.2.2, h.1, h.2.1⟩
   | num l =>
     obtain ⟨n, hn, rfl⟩ := h
     exact ⟨fun hc => (numByte_ne 34 (numText_bytes n hn 34 hc)).2.2.1 rfl,
-           fun hc => (numByte_ne 44 (numText_bytes n hn 44 hc)).2.2.2.1 rfl⟩
+           fun hc => (numByte_ne 44 (numText_bytes n hn 44 hc)).2.2.2.1 rfl,
+           fun hc => (numByte_ne 0 (numText_bytes n hn 0 hc)).2.2.2.2.2 rfl,
+           fun hc => (numByte_ne 10 (numText_bytes n hn 10 hc)).1 rfl,
+           fun hc => (numByte_ne 13 (numText_bytes n hn 13 hc)).2.1 rfl⟩
 
 theorem clean_writeCell (c : Cell) (h : CellWF c) : Clean (writeCell 44 34 c) := by
   cases c with
@@ -175,7 +178,7 @@ theorem writeRow_head (r : List Cell) (h : ∀ c ∈ r, CellWF c) : (writeRow 44
       | cons y ys =>
         simp only [List.cons_append, List.head?_cons, ne_eq, Option.some.injEq]
         have : y ∈ n.text := by rw [ht]; simp
-        exact (numByte_ne y (numText_bytes n hn y this)).2.2.2.2
+        exact (numByte_ne y (numText_bytes n hn y this)).2.2.2.2.1
     | str s =>
       rw [writeCell_str]
       split
@@ -187,7 +190,7 @@ theorem writeRow_head (r : List Cell) (h : ∀ c ∈ r, CellWF c) : (writeRow 44
           | cons x t => simp
         | cons y ys =>
           simp only [List.cons_append, List.head?_cons, ne_eq, Option.some.injEq]
-          have := hcw.2.2.2
+          have := hcw.2.2.2.1
           simpa using this
 
 /-! ## the writer -/
